@@ -17,6 +17,6 @@ Programs == <<
 FamProgOf(i) == Programs[i]
 Init == \E i \in 1..Len(Programs) : InitSem(i, << StrCps("  hello ") >>, FALSE)
 Next == SemNext
-EmitInv == Final => Emit([fam |-> "smoke", pid |-> pid, toks |-> Compact(Yield(MinParen(P))), status |-> status, why |-> why,
+EmitInv == Final => Emit([fam |-> "smoke", pid |-> pid, toks |-> Compact(Yield(MinParen(P))), tree |-> P, status |-> status, why |-> why,
                           out |-> out, diags |-> diags, natlog |-> natlog, steps |-> steps])
 =============================================================================
